@@ -2,6 +2,7 @@
 //! functions, comparisons (section 3.4) and arithmetic (section 3.5).
 
 use crate::eval::Value;
+use crate::trace;
 use crate::tree::XTree;
 
 #[derive(Clone, Copy, Debug, PartialEq, Eq, Hash)]
@@ -33,6 +34,7 @@ pub fn is_xpath_space(c: char) -> bool {
 
 /// `string(number)` (section 4.2).  Never uses exponent notation.
 pub fn number_to_string(v: f64) -> String {
+    trace::note_num(v);
     if v.is_nan() {
         return "NaN".to_string();
     }
@@ -56,6 +58,7 @@ pub fn number_to_string(v: f64) -> String {
 /// `Number` (`Digits ('.' Digits?)? | '.' Digits`), optional white space;
 /// anything else is NaN.  The result is the nearest double (round-to-even).
 pub fn string_to_number(s: &str) -> f64 {
+    trace::note_str(s);
     let t = s.trim_matches(is_xpath_space);
     let (neg, body) = match t.strip_prefix('-') {
         Some(r) => (true, r),
@@ -257,10 +260,13 @@ pub fn to_boolean(v: &Value) -> bool {
 
 pub fn to_string(v: &Value, tree: &XTree) -> String {
     match v {
-        Value::NodeSet(ns) => match ns.first() {
-            Some(&n) => tree.string_value(n),
-            None => String::new(),
-        },
+        Value::NodeSet(ns) => {
+            trace::note_order_use(tree, ns);
+            match ns.first() {
+                Some(&n) => tree.string_value(n),
+                None => String::new(),
+            }
+        }
         Value::Bool(b) => (if *b { "true" } else { "false" }).to_string(),
         Value::Num(n) => number_to_string(*n),
         Value::Str(s) => s.clone(),
